@@ -2,6 +2,7 @@ package rules
 
 import (
 	"fmt"
+	"go/types"
 	"strings"
 
 	"golang.org/x/tools/go/ssa"
@@ -153,6 +154,76 @@ func ruleC11_45(c *Ctx) {
 					if !found {
 						diffs5 = append(diffs5, "the delivered operand "+atom+" is never printed as such")
 					}
+				}
+			}
+			// flags: a delivered boolean computed from an operand (arc flags) is "printed argument != 0" for an argument of
+			// the operand's line other than the raw number - the flag the listing shows is the flag delivered, for every
+			// value of the number; two flags take two different arguments, in order
+			usedFlagArg := -1
+			for ai, a := range s.Deliver.Args[1:] {
+				if a.IsConst() || a.T == nil {
+					continue
+				}
+				if bt, isB := a.T.Underlying().(*types.Basic); !isB || bt.Info()&types.IsBoolean == 0 {
+					continue
+				}
+				atoms := valAtomsIn(a)
+				if len(atoms) != 1 {
+					continue
+				}
+				atom, nAtom := atoms[0], ""
+				for _, cs := range tr.Consumes {
+					if eventValAtom(cs) == atom && cs.Result != nil && len(cs.Result.Args) > 1 {
+						nAtom = cs.Result.Args[1].Name
+					}
+				}
+				akey := sym.Atom(atom, nil).Key()
+				found, idx, why := false, 0, "no printed argument is this flag"
+				for _, pr := range tr.Prints {
+					for _, va := range pr.VarArgs {
+						for _, e := range va {
+							idx++
+							inner := e
+							if inner.Op == "makeiface" {
+								inner = inner.Args[0]
+							}
+							for inner.Op == "ite" && (inner.Args[1].IsConst() || inner.Args[2].IsConst()) {
+								if inner.Args[1].IsConst() {
+									inner = inner.Args[2]
+								} else {
+									inner = inner.Args[1]
+								}
+							}
+							if found || idx <= usedFlagArg || isValOrGated(inner, atom) || !sym.Mentions(inner, akey) {
+								continue
+							}
+							w, _, isInt := intWidth(inner.T)
+							if !isInt {
+								continue
+							}
+							bits, err := toBits(inner, w)
+							if err != nil || len(bits) == 0 || bits[0].Atom != akey {
+								continue
+							}
+							single := true
+							for _, b := range bits[1:] {
+								if b.Atom != "" || b.Const != 0 {
+									single = false
+								}
+							}
+							if !single {
+								continue
+							}
+							if ok, y := flagBitOf(a, atom, uint(bits[0].Bit), nAtom); ok {
+								found, usedFlagArg = true, idx
+							} else {
+								why = fmt.Sprintf("the listing shows bit %d of the number, but %s", bits[0].Bit, y)
+							}
+						}
+					}
+				}
+				if !found {
+					diffs5 = append(diffs5, fmt.Sprintf("delivered flag (argument %d) is not what its operand line shows: %s", ai, why))
 				}
 			}
 			// constants: every constant integer argument of the delivery appears among the head line's arguments; the repeat count too
